@@ -14,14 +14,14 @@ CHECKS = {
         text="rep(state, power sums) is preserved by Mean/Variance::add for an arbitrary symbolic summary (all n, all inputs) and every "
              "accessor equals the textbook statistic or its sentinel; Verus lemma_fold lifts this to every sequence and order. Exact-real "
              "semantics: a wrong coefficient, guard, n vs n-1 or update order fails a named obligation with a replayed input."),
-    "C02": dict(engine="RS+VL", technique=RS_TECH, design="6/C02", note=RS_NOTE,
+    "C02": dict(engine="RS+VL+VU", technique=RS_TECH + "; Verus on the mechanically extracted IterBinomial::{new,next} (all n)", design="6/C02, 32", note=RS_NOTE,
         text="merge of Mean, Variance, Skewness, Kurtosis and define_moments! orders 4,5,6 (thorough: 8,10): for symbolic summaries Pa, Pb in "
              "all four emptiness cases the post-state represents Pa+Pb, len adds exactly, the argument is unchanged; Verus lemma_merge_tree "
              "gives every chunking, empty chunk and bracketing without enumeration."),
     "C03": dict(engine="RS+VL", technique=RS_TECH, design="6/C03", note=RS_NOTE + " A-REALIZABLE for the M2=0 shortcuts.",
         text="Terriberry updates of Skewness/Kurtosis proved against M3/M4 of the enlarged summary; skewness()/kurtosis() and the "
              "re-exported accessors proved against m3/m2^1.5, m4/m2^2-3 and the variance formulas (roots as r>=0, r^2=x)."),
-    "C04": dict(engine="RS+VL", technique=RS_TECH, design="6/C04", note=RS_NOTE + " Configurations: N in {4,5,6} quick, +{8,10} thorough.",
+    "C04": dict(engine="RS+VL+VU", technique=RS_TECH + "; Verus on the mechanically extracted IterBinomial::{new,next} (all n)", design="6/C04, 32", note=RS_NOTE + " Configurations: N in {4,5,6,8,10}; the binomial iterator is verified by Verus for every n (section 32).",
         text="define_moments! instantiated mechanically per order N; add proved against M_p of the enlarged summary for p=2..N, "
              "central_moment/standardized_moment for every p<=N, IterBinomial exact; complete per N (loop bounds are the macro parameter)."),
     "C06": dict(engine="K", technique="Kani proof harnesses on the real crate (symbolic valid edges, every f64 sample), unwinding assertions on", design="6/C06",
@@ -143,6 +143,8 @@ def main():
              "serves_properties": [p for p in CHECKS if "K" in CHECKS[p]["engine"]]},
             {"name": "RS", "path": "rs/", "kind_free_text": "own VC generator: symbolic execution of the real function bodies (syn AST via tools/rsx) under exact-real semantics; obligations discharged by sympy normal forms and z3 5.1 QF_NRA",
              "serves_properties": [p for p in CHECKS if "RS" in CHECKS[p]["engine"]]},
+            {"name": "VU", "path": "lib/verus_units.py", "kind_free_text": "Verus on functions extracted mechanically from /repo on every run (contracts/verus/*.tmpl): IterBinomial::{new,next} against Pascal's rule for every n, u64 overflow as obligations",
+             "serves_properties": [p for p in CHECKS if "VU" in CHECKS[p]["engine"]]},
             {"name": "VL", "path": "contracts/lemmas/history.rs", "kind_free_text": "Verus lemmas lifting per-call contracts to all histories / merge trees",
              "serves_properties": [p for p in CHECKS if "VL" in CHECKS[p]["engine"]]},
         ],
